@@ -303,6 +303,13 @@ class DRFNet(BayesianNetwork):
             n = self.Ns
         elif type(n) == int:
             n = [n] * self.e
+        # Use a single generator for all bootstrap samples, so that
+        # source variables are resampled independently of each other;
+        # the forests draw from numpy's global generator, which must be
+        # seeded for the sample to be reproducible
+        rng = np.random.default_rng(random_state)
+        if random_state is not None:
+            np.random.seed(random_state)
         # Generate a sample for each environment
         sampled_data = []
         for k in range(self.e):
@@ -311,7 +318,7 @@ class DRFNet(BayesianNetwork):
                 if self._random_forests[i, k] is None:
                     # Node has no parents, generate a sample using bootstrapping
                     sample[:, i] = _bootstrap(
-                        self._data[k][:, i], n[k], random_state=random_state
+                        self._data[k][:, i], n[k], random_state=rng
                     )
                 else:
                     parents = sempler.utils.pa(i, self.graph)
